@@ -91,7 +91,7 @@ def tok_class(k, lx):
 # ---------------------------------------------------------------------------------------------------------------
 # mutation operators
 
-TOKEN_OPS = ('delete', 'duplicate', 'swap', 'keyword')
+TOKEN_OPS = ('delete', 'duplicate', 'swap', 'keyword')   # 'ident' exists too but is not drawn at random: see ident_grid()
 BYTE_OPS = ('nul', 'highbit', 'nonl', 'truncate', 'flip', 'insert')
 
 
@@ -118,6 +118,15 @@ def token_mutant(rng, toks, op=None):
         if toks[i][0] not in ('kw', 'id'):
             t.insert(i + 1, (' ', ' '))
             t.insert(i, (' ', ' '))
+    elif op == 'ident':
+        # an identifier (or, failing that, any token) becomes another identifier / literal / SELF / ? of the same file
+        ids = [j for j in sig if toks[j][0] == 'id']
+        if ids:
+            i = rng.choice(ids)
+            cons = construct_at(toks, i)
+            cls = 'id'
+        pool = sorted(set(lx for k, lx in toks if k == 'id')) + ['SELF', '?', '1', "'s'", '[]', 'TRUE']
+        t[i] = ('id', rng.choice(pool))
     else:
         raise ValueError(op)
     return ''.join(lx for _, lx in t), op, cons, cls
@@ -580,3 +589,78 @@ def rich_corpus(rng, n, avoid=(), stem='rs'):
         g = Rich(rng, avoid)
         out.append((g.file('%s%d' % (stem, i)), sorted(g.tags)))
     return out
+
+
+# ---------------------------------------------------------------------------------------------------------------
+# classified identifier replacement (deterministic grid, seed independent): every kind of name at every kind of site is
+# replaced by one representative of every other kind - the inputs on which look-ups fail or find the wrong kind of object
+
+_KIND_PATTERNS = (
+    ('entity', r'_e\d+$'), ('function', r'_f\d+(_in)?$'), ('procedure', r'_pr$'), ('constant', r'_c[irslb]$'),
+    ('defined type', r'_(cnt|label|len)$'), ('aggregate type', r'_(ids|mat)$'), ('enumeration type', r'_colour$'),
+    ('select type', r'_sel$'), ('enumeration item', r'_(red|green|blue|grey)$'), ('explicit attribute', r'^e\d+_a\d+$'),
+    ('derived attribute', r'^e\d+_ds?$'), ('inverse attribute', r'^e\d+_inv$'), ('rule', r'_r$'), ('rule label', r'^(wr|ur)\d$'),
+    ('local or parameter', r'^(i|j|r|s|b|l|li|bn|n|x|a|v|cnt|t)$'), ('loop, query or alias variable', r'^(k|q|p|al)\d$'),
+)
+
+
+def ident_kind(name, schemas=()):
+    if name in schemas:
+        return 'schema'
+    for k, pat in _KIND_PATTERNS:
+        if re.search(pat, name):
+            return k
+    return 'other'
+
+
+def grid_base():
+    """A fixed two-schema file from Rich (own rng, independent of the check's seed) that has every kind of name."""
+    import random
+    for n in range(200):
+        g = Rich(random.Random('c06/grid/%d' % n), avoid=('repeat_bare', 'rename_as', 'long_string', 'remarks', 'tail_remark'))
+        r = g.rng
+        a = g.schema('ga')
+        ea = list(g._ents)
+        b = g.schema('gb', [('ga', ea)])
+        text = '\n'.join(a + [''] + b) + '\n'
+        kinds = set(ident_kind(lx, ('ga', 'gb')) for k, lx in tokenize(text) if k == 'id')
+        if len(text) < 9000 and all(k in kinds for k, _ in _KIND_PATTERNS) and 'USE FROM' in text:
+            return text
+    raise RuntimeError('no grid base found')
+
+
+def ident_grid(per_site=1):
+    """-> (base text, [(mutant text, site kind, replacement kind, context)]) - deterministic."""
+    base = grid_base()
+    toks = tokenize(base)
+    schemas = ('ga', 'gb')
+    reps = {}
+    for k, lx in toks:
+        if k == 'id':
+            reps.setdefault(ident_kind(lx, schemas), lx)
+    reps.pop('other', None)
+    extra = [('SELF', 'SELF'), ('indeterminate ?', '?'), ('integer literal', '1'), ('string literal', "'s'"), ('empty aggregate', '[]'),
+             ('undeclared name', 'nowhere_declared')]
+    seen = {}
+    out = []
+    for i, (k, lx) in enumerate(toks):
+        if k != 'id':
+            continue
+        sk = ident_kind(lx, schemas)
+        if sk == 'other':
+            continue
+        ctx = construct_at(toks, i)
+        # declaration or use?  (a name directly after ENTITY/TYPE/FUNCTION/... or before ':' in a declaration is a declaration)
+        prev = next((toks[j][1].upper() for j in range(i - 1, -1, -1) if toks[j][0] not in ('ws', 'rem', 'tail')), '')
+        role = 'declaration of' if prev in ('ENTITY', 'TYPE', 'FUNCTION', 'PROCEDURE', 'RULE', 'SCHEMA') else 'reference to'
+        site = '%s %s in %s' % (role, sk, ctx)
+        if seen.get(site, 0) >= per_site:
+            continue
+        seen[site] = seen.get(site, 0) + 1
+        for rk, rl in list(sorted(reps.items())) + extra:
+            if rl == lx:
+                continue
+            t = list(toks)
+            t[i] = ('id', rl)
+            out.append((''.join(x for _, x in t), '%s %s' % (role, sk), rk, ctx))
+    return base, out
